@@ -4,9 +4,3 @@ ENGINES = [
 ]
 NOTES = "All checks go through ./check <ID> --tier quick|thorough; see DESIGN.md. known_findings.json lists repaired and known defects."
 NOT_APPLICABLE = {}
-TEXT = {
- "C13": dict(engine="bsx", design_ref="DESIGN.md §3 C13",
-   technique="explicit-state BFS over operation histories of the real HistogramNew vs reference model; exhaustive small-scope enumeration for the legacy Histogram",
-   level_text="Every operation history up to the stated depth over the stated value/weight alphabet on 12 (min,max,nbins,periodic) configurations is executed on the real object and compared, transition by transition, with a reference histogram; index assertions + ASan/UBSan decide the memory clause. States/transitions are counted; every transition is a trace validated on the implementation.",
-   level_note="Trusted: the 15-line reference model, Eigen/libstdc++ index assertions and ASan as memory oracle; values off the alphabet are not covered."),
-}
